@@ -15,6 +15,54 @@ import ast
 from ..core import AnalysisError, norm, loc, walk_no_nested, attr_chain, call_name, kwarg
 from ..schema import containment_schema
 from ..flags import check_flag_scope
+from ..normalize import inline, local_env, expand, canon, ctext, conjuncts, branch_values, merge_outcomes, Unknown, _enclosing
+from .. import flow
+from . import c12
+
+def _is_empty_collection(v):
+    if isinstance(v, (ast.List, ast.Set, ast.Tuple, ast.Dict)) and not (getattr(v, 'elts', None) or getattr(v, 'keys', None)):
+        return True
+    return isinstance(v, ast.Call) and isinstance(v.func, ast.Name) and v.func.id in ('list', 'set', 'dict') and not v.args and not v.keywords
+
+
+def overwritten_accumulators(fn, rep, rule, fq):
+    """[(name, loop, assignment)]: locals initialised as an empty collection before a loop, read after that loop, and inside the
+    loop rebound by a plain assignment that does not mention them, with no accumulating operation on them in the loop."""
+    out = []
+
+    def blocks(node):
+        for field in ('body', 'orelse', 'finalbody'):
+            b = getattr(node, field, None)
+            if isinstance(b, list) and b and isinstance(b[0], ast.stmt):
+                yield b
+        for h in getattr(node, 'handlers', []) or []:
+            yield h.body
+    stack = [fn]
+    while stack:
+        node = stack.pop()
+        for blk in blocks(node):
+            for i, st in enumerate(blk):
+                stack.append(st)
+                if not isinstance(st, (ast.For, ast.While)):
+                    continue
+                inits = {}
+                for prev in blk[:i]:
+                    if isinstance(prev, ast.Assign) and len(prev.targets) == 1 and isinstance(prev.targets[0], ast.Name) and _is_empty_collection(prev.value):
+                        inits[prev.targets[0].id] = prev
+                for var in inits:
+                    plain = [a for a in ast.walk(st) if isinstance(a, ast.Assign) and any(isinstance(t, ast.Name) and t.id == var for t in a.targets)
+                             and not any(isinstance(x, ast.Name) and x.id == var for x in ast.walk(a.value))]
+                    accum = [c for c in ast.walk(st) if (isinstance(c, ast.Call) and isinstance(c.func, ast.Attribute) and isinstance(c.func.value, ast.Name)
+                                                        and c.func.value.id == var and c.func.attr in ('add', 'append', 'update', 'extend', 'setdefault', 'insert'))
+                             or (isinstance(c, ast.AugAssign) and isinstance(c.target, ast.Name) and c.target.id == var)
+                             or (isinstance(c, ast.Subscript) and isinstance(c.ctx, ast.Store) and isinstance(c.value, ast.Name) and c.value.id == var)]
+                    read_after = any(isinstance(x, ast.Name) and x.id == var and isinstance(x.ctx, ast.Load) for later in blk[i + 1:] for x in ast.walk(later))
+                    rep.instance(rule, f'{fq}: {var} (empty before the loop over {norm(st.iter, 40) if isinstance(st, ast.For) else "while"}): '
+                                       f'accumulated={len(accum)} reassigned={len(plain)} read after the loop={read_after}')
+                    if plain and not accum and read_after:
+                        out.append((var, st, plain[0]))
+    return out
+
 
 ARM = 'fim.graph.resources.abc_arm:ABCARMPropertyGraph'
 ADM = 'fim.graph.resources.abc_adm:ABCADMPropertyGraph'
@@ -43,6 +91,10 @@ def run(prog, rep):
     if ga is None or ud is None:
         raise AnalysisError('generate_adms / _update_delegations_on_node vanished')
 
+    # only aliases (locals naming an attribute / an element of a container) are expanded, not computed values
+    genv = {k: v for k, v in local_env(ga).items() if isinstance(v, (ast.Name, ast.Attribute, ast.Subscript))}
+    T = lambda e: ctext(e, genv) if e is not None else None
+
     # ---- R1 ----
     for fn in (ga, ud):
         fq = f'ABCARMPropertyGraph.{fn.name}'
@@ -59,7 +111,7 @@ def run(prog, rep):
         if isinstance(c, ast.Call) and call_name(c) == '_update_delegations_on_node':
             g = kwarg(c, 'graph')
             rep.instance('R1', f'generate_adms: helper called with graph={norm(g) if g is not None else None}')
-            if g is None or ast.unparse(g) == 'self' or not ast.unparse(g).endswith('.graph'):
+            if g is None or T(g) == 'self' or not T(g).endswith('.graph'):
                 rep.violation('R1', loc(mod, c), 'ABCARMPropertyGraph.generate_adms', norm(c, 110),
                               'the delegation rewrite is applied to the original model instead of the clone of this delegation id')
     # clone per delegation id
@@ -113,7 +165,7 @@ def run(prog, rep):
         # skip conditions inside the node loop may only depend on the delegations of the node
         for n in ast.walk(node_loop):
             if isinstance(n, ast.If) and any(isinstance(x, ast.Continue) for x in n.body):
-                t = ast.unparse(n.test)
+                t = T(n.test)
                 rep.instance('R2', f'generate_adms: skip condition {norm(n.test, 100)}')
                 if 'delegations_by_node' not in t or 'keep_nodes' in t or 'remove_nodes' in t:
                     rep.violation('R2', loc(mod, n), 'ABCARMPropertyGraph.generate_adms', norm(n.test, 120),
@@ -136,7 +188,7 @@ def run(prog, rep):
         type_var = ast.unparse(type_loop.target)
         id_var = ast.unparse(id_loop.target)
         want_val = f'delegations_by_node[{node_var}][{type_var}].return_delegations_for_id({id_var})'
-        if vdef is None or ast.unparse(vdef) != want_val:
+        if vdef is None or T(vdef) != want_val:
             rep.violation('R2', loc(mod, cs), 'ABCARMPropertyGraph.generate_adms', f'rewrite value {norm(vdef) if vdef is not None else norm(val)}',
                           f'the value written must be the entries of this node and type for this delegation id ({want_val})')
         pdef = None
@@ -144,10 +196,10 @@ def run(prog, rep):
             for n in ast.walk(node_loop):
                 if isinstance(n, ast.Assign) and any(isinstance(t, ast.Name) and t.id == pn.id for t in n.targets):
                     pdef = n.value
-        if pdef is None or ast.unparse(pdef) != f'self.DELEGATION_TYPE_TO_PROP[{type_var}]':
+        if pdef is None or T(pdef) not in (f'self.DELEGATION_TYPE_TO_PROP[{type_var}]', f'ABCARMPropertyGraph.DELEGATION_TYPE_TO_PROP[{type_var}]'):
             rep.violation('R2', loc(mod, cs), 'ABCARMPropertyGraph.generate_adms', f'rewrite property {norm(pdef) if pdef is not None else norm(pn)}',
                           'the property written must be the one of the current delegation type')
-        if ast.unparse(g) != f'delegations_info[{id_var}].graph' or ast.unparse(nid) != node_var:
+        if T(g) != f'delegations_info[{id_var}].graph' or T(nid) != node_var:
             rep.violation('R2', loc(mod, cs), 'ABCARMPropertyGraph.generate_adms', f'rewrite target {norm(g)} / {norm(nid)}',
                           'the rewrite must address the current node in the clone of the current delegation id')
 
@@ -157,18 +209,15 @@ def run(prog, rep):
     if unsets:
         # the caller must skip (node, type) pairs for which the original carries no delegation property
         ok = False
-        if len(loops) >= 1:
-            for n in ast.walk(loops[0]):
-                if isinstance(n, ast.If) and any(isinstance(x, ast.Continue) for x in n.body):
-                    t = ast.unparse(n.test)
-                    if 'delegations_by_node' in t and ast.unparse(loops[0].target) in t and 'is None' in t and n.lineno < cs.lineno:
+        if len(loops) >= 2:
+            tv = ast.unparse(loops[0].target)
+            nv = ast.unparse(loops[1].target)
+            _, conds = _enclosing(cs, loops[1])
+            for c_ in conds:
+                for cj in conjuncts(canon(expand(c_, genv))):
+                    # "the node carries a delegation property of this type": <type> in delegations_by_node[<node>]
+                    if ctext(cj) in (f'{tv} in delegations_by_node[{nv}]', f'delegations_by_node[{nv}][{tv}] is not None'):
                         ok = True
-            # or the call is nested under an `is not None` test
-            p = cs
-            while p is not loops[0]:
-                p = p._parent
-                if isinstance(p, ast.If) and 'delegations_by_node' in ast.unparse(p.test) and 'is not None' in ast.unparse(p.test):
-                    ok = True
         if not ok:
             rep.violation('R5', loc(mod, cs), 'ABCARMPropertyGraph.generate_adms', 'unset reachable for an absent property',
                           'unset_node_property raises on the NetworkX backend when the property is absent; the rewrite reaches it '
@@ -231,6 +280,23 @@ def run(prog, rep):
     if len(upd_pairs) < 3:
         rep.violation('R4', loc(mod, ga), 'ABCARMPropertyGraph.generate_adms', 'trace results not added to the keep set', 'traced elements must be kept')
 
+    # ---- R7: collections accumulated over a loop are accumulated, not overwritten ----
+    rep.rule('R7', 'a collection that is initialised empty, filled inside a loop and read after it is accumulated (not reassigned) in the loop', floor=3)
+    for fname in ('catalog_delegations', 'generate_adms'):
+        f_ = arm.methods.get(fname)
+        if f_ is None:
+            raise AnalysisError(f'ABCARMPropertyGraph.{fname} vanished')
+        for finding in overwritten_accumulators(f_, rep, 'R7', f'ABCARMPropertyGraph.{fname}'):
+            var, loop, assign = finding
+            rep.violation('R7', loc(mod, assign), f'ABCARMPropertyGraph.{fname}', f'accumulator reassigned inside the loop over {norm(loop.iter, 50)}',
+                          f'`{var}` starts as an empty collection, is read after the loop over {norm(loop.iter, 50)}, but inside the loop it is '
+                          f'assigned (not extended): only what the last iteration produced survives - here the delegation ids of the last '
+                          f'delegation type found on the node, so a node delegated under another id through the other type is not a keep '
+                          f'node of that partition and is deleted from it')
+    # ---- R8: the codec the rewrite relies on ----
+    rep.rule('R8', 'the delegation codec used to write the per-id subsets is faithful (shared with C12)', floor=8)
+    c12.check_delegation_codec(prog, rep, 'R8')
+
     # ---- R6 ----
     adm = prog.cls(ADM)
     rw = adm.methods.get('rewrite_delegations')
@@ -248,9 +314,18 @@ def run(prog, rep):
     if not moved:
         rep.violation('R6', loc(adm.module, rw), 'ABCADMPropertyGraph.rewrite_delegations', 'entry not moved under the new key',
                       're-keying must move the existing entry (pop old key, store under the new key) so that only the key changes')
-    ids = [n for n in ast.walk(rw) if isinstance(n, ast.Assign) and ast.unparse(n.targets[0]).endswith('.delegation_id')]
-    vals = sorted(ast.unparse(n.value) for n in ids)
-    if vals != ['real_adm_id', 'self.graph_id']:
+    def id_sink(st):
+        if isinstance(st, ast.Assign) and len(st.targets) == 1 and isinstance(st.targets[0], ast.Attribute) and st.targets[0].attr == 'delegation_id':
+            return st.value
+        return None
+    try:
+        kouts = merge_outcomes(branch_values(inline(prog, adm, rw).body, id_sink, follow_loops=True))
+    except Unknown as u:
+        raise AnalysisError(f'rewrite_delegations not analysable: {u}')
+    pairing = sorted({(o.vtext, tuple(c for c in o.conds if 'real_adm_id' in c)) for o in kouts})
+    rep.instance('R6', f'rewrite_delegations: new key {pairing}')
+    vals = sorted({v for v, _ in pairing})
+    if pairing != [('real_adm_id', ('real_adm_id is not None',)), ('self.graph_id', ('real_adm_id is None',))]:
         rep.violation('R6', loc(adm.module, rw), 'ABCADMPropertyGraph.rewrite_delegations', f'new key from {vals}',
                       'the new key must be the given real ADM id, or this graph\'s id when none is given')
     props_loop = [n for n in ast.walk(rw) if isinstance(n, ast.For) and isinstance(n.iter, (ast.List, ast.Tuple))]
